@@ -394,6 +394,33 @@ def _mk_transpose(shape, perm):
 for _shape, _perm in PERMS:
     _mk_transpose(_shape, _perm)
 
+
+def _mk_transpose_twice(shape, p1, p2):
+    @contract("C13", ENC + ".TransposedEncoding.transpose", name="composition[shape=%s,%s then %s]" % ("x".join(map(str, shape)), ",".join(map(str, p1)), ",".join(map(str, p2))), kind="bounded-shape", note="a transposed view of a transposed view addresses what numpy's transpose(p1).transpose(p2) does; every integer index (symbolic)")
+    def transposed_twice(h):
+        mod = h.module(ENC)
+        # a lazy base (run-length data reshaped), so that both transposes stay lazy
+        n = 1
+        for s_ in shape:
+            n *= s_
+        base = mod.ShapedEncoding(mod.RunLengthEncoding.from_dense(rnp.arange(n)), shape)
+        e = base.transpose(p1).transpose(p2)
+        ref = rnp.arange(n).reshape(shape).transpose(p1).transpose(p2)
+        h.check("shape", tuple(e.shape) == ref.shape)
+        # the combined permutation q with result axis k = base axis q[k]
+        q = [p1[p2[k]] for k in range(len(shape))]
+        if not isinstance(e, mod.TransposedEncoding):
+            h.check("identity-composition-returns-the-base", q == list(range(len(shape))))
+            return
+        I = _sym_indices(h, ref.shape)
+        B = e._to_base_indices(I)
+        h.check("to-base=numpy-double-transpose", h.all([h.exact(B[r, q[k]], I[r, k]) for r in range(2) for k in range(len(shape))]))
+        h.check("from-base-inverse", h.exact(e._from_base_indices(B), I))
+
+
+for _p1, _p2 in (((0, 2, 1), (1, 0, 2)), ((1, 2, 0), (0, 2, 1)), ((2, 0, 1), (2, 0, 1)), ((1, 0, 2), (1, 2, 0)), ((1, 2, 0), (2, 0, 1))):
+    _mk_transpose_twice((2, 3, 4), _p1, _p2)
+
 RESHAPES = [((6,), (2, 3)), ((2, 3), (3, 2)), ((2, 3, 2), (4, 3)), ((12,), (2, 3, 2))]
 
 
@@ -466,6 +493,10 @@ def _views(e, ref):
         for perm in itertools.permutations(range(nd)):
             if perm != tuple(range(nd)):
                 vs.append(("T%s" % "".join(map(str, perm)), lambda perm=perm: (e.transpose(perm), ref.transpose(perm))))
+        if nd == 3:
+            # a transposed view of a transposed view (non-commuting permutations)
+            for p1, p2 in (((0, 2, 1), (1, 0, 2)), ((1, 2, 0), (0, 2, 1)), ((2, 0, 1), (2, 0, 1)), ((1, 0, 2), (1, 2, 0))):
+                vs.append(("T%s.T%s" % ("".join(map(str, p1)), "".join(map(str, p2))), lambda p1=p1, p2=p2: (e.transpose(p1).transpose(p2), ref.transpose(p1).transpose(p2))))
         vs.append(("flat", lambda: (e.flat, ref.reshape(-1))))
         vs.append(("T.flip0", lambda: (e.transpose(tuple(reversed(range(nd)))).flip(0), rnp.flip(ref.transpose(tuple(reversed(range(nd)))), 0))))
         vs.append(("flip0.T", lambda: (e.flip(0).transpose(tuple(reversed(range(nd)))), rnp.flip(ref, 0).transpose(tuple(reversed(range(nd)))))))
